@@ -42,7 +42,13 @@ def run(prop):
                     return violations, ran, "front build failed"
             wd = os.path.join(ws.WORK, "regresstmp")
             os.makedirs(wd, exist_ok=True)
-            p = subprocess.run([ws.tool("front"), "replay", path, "--workdir", wd], stdout=subprocess.PIPE, stderr=subprocess.DEVNULL, text=True, timeout=900)
+            tool = "front"
+            if rec.get("feature_colored") is False:
+                # recorded against the runtime built without its `colored` feature
+                tool = "frontnc"
+                if not os.path.exists(ws.tool("frontnc")) and not ws.build_tools(("frontnc",)):
+                    return violations, ran, "frontnc build failed"
+            p = subprocess.run([ws.tool(tool), "replay", path, "--workdir", wd], stdout=subprocess.PIPE, stderr=subprocess.DEVNULL, text=True, timeout=900)
             shutil.rmtree(wd, ignore_errors=True)
             ran += 1
             if p.returncode == 1:
